@@ -224,6 +224,15 @@ impl Prop for C18 {
 					if run.rng.chance(1, 2) {
 						q.push(Step::new(Op::Refresh { w }));
 					}
+					if run.rng.chance(1, 2) {
+						// the node fails one call of the first scan after the fork (a scan makes
+						// a handful: tip, outputs, kernels, PMMR ranges); whatever that scan
+						// answers, the clean one after it must find the payment reverted
+						let mut st = Step::new(Op::Scan { w, start: None, del: false });
+						st.node_fail = Some((run.rng.range(1, 8) as u32, false));
+						q.push(st);
+						run.cov.probe("node_failed_one_call_of_the_scan_after_a_fork");
+					}
 					q.push(Step::new(Op::Scan { w, start: None, del: false }));
 					if run.rng.chance(1, 2) {
 						let a = self.gen.send_args(run, w);
